@@ -829,7 +829,12 @@ func (c *compiler) evalCallExpression(node *ast.CallExpression) (interface{}, er
 		}
 
 		if ff, ok := f.(*userFunction); ok {
-			return c.evalUserFunction(ff, node.Arguments)
+			res, err := c.evalUserFunction(ff, node.Arguments)
+			if err != nil || node.ChainCallee == nil {
+				return res, err
+			}
+			// f(x).Name: the path continues from the function's result
+			return c.evalChainCallee(node, res)
 		}
 
 		rv = reflect.ValueOf(f)
@@ -1003,30 +1008,36 @@ func (c *compiler) evalCallExpression(node *ast.CallExpression) (interface{}, er
 			return nil, fmt.Errorf("could not call %s function: %w", node.Function, e)
 		}
 		if node.ChainCallee != nil {
-			octx := c.ctx.(*Context)
-			defer func() {
-				c.ctx = octx
-			}()
-
-			c.ctx = octx.New()
-			for k, v := range octx.data {
-				c.ctx.Set(k, v)
-			}
-			chainKey := node.Function.String()
-			if root := calleeRoot(node.ChainCallee); root != nil {
-				chainKey = lookupName(root)
-			}
-			c.ctx.Set(chainKey, res[0].Interface())
-			vvs, err := c.evalExpression(node.ChainCallee)
-			if err != nil {
-				return nil, err
-			}
-			return vvs, err
+			return c.evalChainCallee(node, res[0].Interface())
 		}
 		return res[0].Interface(), nil
 	}
 
 	return nil, nil
+}
+
+// evalChainCallee evaluates the path that follows a call, f(x).a.b, with the
+// call's result bound under the path's root.
+func (c *compiler) evalChainCallee(node *ast.CallExpression, result interface{}) (interface{}, error) {
+	octx := c.ctx.(*Context)
+	defer func() {
+		c.ctx = octx
+	}()
+
+	c.ctx = octx.New()
+	for k, v := range octx.data {
+		c.ctx.Set(k, v)
+	}
+	chainKey := node.Function.String()
+	if root := calleeRoot(node.ChainCallee); root != nil {
+		chainKey = lookupName(root)
+	}
+	c.ctx.Set(chainKey, result)
+	vvs, err := c.evalExpression(node.ChainCallee)
+	if err != nil {
+		return nil, err
+	}
+	return vvs, err
 }
 
 func (c *compiler) evalForExpression(node *ast.ForExpression) (interface{}, error) {
